@@ -100,3 +100,59 @@ pub fn quote(bank: &Bank, pool: &Pubkey, oracle: &Pubkey, supplied: &[Pubkey], a
         Err(_) => json!({"present": true, "ok": false, "a": 0, "b": 0, "fee": 0, "err": "panic", "arrays": n}),
     }
 }
+
+fn transfer_fee_of(bank: &Bank, mint: &Pubkey, epoch: u64) -> Option<core_sdk::TransferFee> {
+    let a = bank.accts.get(mint)?;
+    let (older, newer) = project::t22_transfer_fee_config(&a.data)?;
+    let (_, max_fee, bps) = if epoch >= newer.0 { newer } else { older };
+    Some(core_sdk::TransferFee { fee_bps: bps, max_fee })
+}
+
+/// The SDK's user-facing quotes (`swap_quote_by_input_token` / `swap_quote_by_output_token`: transfer fees of
+/// both mints applied, no price limit, slippage-adjusted bound) on the pre-state bank.  Only meaningful for
+/// swaps submitted without an explicit price limit.
+#[allow(clippy::too_many_arguments)]
+pub fn quote_user_level(bank: &Bank, pool: &Pubkey, oracle: &Pubkey, supplied: &[Pubkey], mint_a: &Pubkey, mint_b: &Pubkey, amount: u64, exact_in: bool, a_to_b: bool, ts: u64, epoch: u64, slippage_bps: u16) -> Value {
+    let wp = whirlpool_facade(bank, pool);
+    let span = wp.tick_spacing as i32 * 88;
+    let shifted = if a_to_b { wp.tick_current_index } else { wp.tick_current_index + wp.tick_spacing as i32 };
+    let s0 = shifted.div_euclid(span) * span;
+    let dir = if a_to_b { -1 } else { 1 };
+    let mut fs = vec![];
+    for k in 0..3 {
+        let start = s0 + dir * k * span;
+        let pda = Pubkey::find_program_address(&[b"tick_array", pool.as_ref(), start.to_string().as_bytes()], &whirlpool::ID).0;
+        if !supplied.contains(&pda) {
+            break;
+        }
+        match tick_array_facade(bank, &pda, start) {
+            Some(f) => fs.push(f),
+            None => break,
+        }
+    }
+    let tas = match fs.len() {
+        1 => core_sdk::TickArrays::One(fs[0]),
+        2 => core_sdk::TickArrays::Two(fs[0], fs[1]),
+        3 => core_sdk::TickArrays::Three(fs[0], fs[1], fs[2]),
+        _ => return json!({"present": false}),
+    };
+    let orc = oracle_info(bank, oracle).map(|i| {
+        let a = &bank.accts[oracle];
+        let te = u64::from_le_bytes(a.data[8 + 32..8 + 32 + 8].try_into().unwrap());
+        core_sdk::OracleFacade { trade_enable_timestamp: te, adaptive_fee_constants: i.constants, adaptive_fee_variables: i.variables }
+    });
+    let (tfa, tfb) = (transfer_fee_of(bank, mint_a, epoch), transfer_fee_of(bank, mint_b, epoch));
+    let r = std::panic::catch_unwind(std::panic::AssertUnwindSafe(|| {
+        if exact_in {
+            core_sdk::swap_quote_by_input_token(amount, a_to_b, slippage_bps, wp, orc, tas, ts, tfa, tfb).map(|q| (q.token_in, q.token_est_out, q.token_min_out, q.trade_fee))
+        } else {
+            // specified token = the OUTPUT token: A when the swap is b -> a
+            core_sdk::swap_quote_by_output_token(amount, !a_to_b, slippage_bps, wp, orc, tas, ts, tfa, tfb).map(|q| (q.token_est_in, q.token_out, q.token_max_in, q.trade_fee))
+        }
+    }));
+    match r {
+        Ok(Ok((tin, tout, bound, fee))) => json!({"present": true, "ok": true, "in": nu(tin as u128), "out": nu(tout as u128), "bound": nu(bound as u128), "fee": nu(fee as u128), "bps": slippage_bps, "err": ""}),
+        Ok(Err(e)) => json!({"present": true, "ok": false, "in": 0, "out": 0, "bound": 0, "fee": 0, "bps": slippage_bps, "err": e}),
+        Err(_) => json!({"present": true, "ok": false, "in": 0, "out": 0, "bound": 0, "fee": 0, "bps": slippage_bps, "err": "panic"}),
+    }
+}
